@@ -44,18 +44,24 @@ func Specs() map[string]*PropSpec {
 		Stubs:       []string{"zzverif.MemStore (in-memory KVStore)", "zzverif blob codec"},
 	}
 	lt := func(fn string, kv ...string) Inst { return Inst{Pkg: "x/liquidvesting/types", Fn: fn, Params: pm(kv...)} }
+	lk := func(fn string, kv ...string) Inst {
+		return Inst{Pkg: "x/liquidvesting/keeper", Fn: fn, Params: pm(kv...), EngineReplay: true}
+	}
 	m["C11"] = &PropSpec{
-		ID: "C11", Pkgs: []string{"./x/liquidvesting/types"},
+		ID: "C11", Pkgs: []string{"./x/liquidvesting/types", "./x/liquidvesting/keeper"},
 		Quick: []Inst{lt("VerifC11_Split", "n", "1"), lt("VerifC11_Split", "n", "3"), lt("VerifC11_Split", "n", "2", "denoms", "2"),
-			lt("VerifC11_NoEarlyUnlock", "n", "1"), lt("VerifC11_NoEarlyUnlock", "n", "2"), lt("VerifC11_NoEarlyUnlock", "n", "3")},
+			lt("VerifC11_NoEarlyUnlock", "n", "1"), lt("VerifC11_NoEarlyUnlock", "n", "2"), lt("VerifC11_NoEarlyUnlock", "n", "3"),
+			lk("VerifC11_LiquidateStep", "periods", "2"), lk("VerifC11_RedeemStep", "denomPeriods", "1")},
 		Thorough: []Inst{lt("VerifC11_Split", "n", "1"), lt("VerifC11_Split", "n", "3"), lt("VerifC11_Split", "n", "5"), lt("VerifC11_Split", "n", "3", "denoms", "2"),
-			lt("VerifC11_NoEarlyUnlock", "n", "1"), lt("VerifC11_NoEarlyUnlock", "n", "2"), lt("VerifC11_NoEarlyUnlock", "n", "3"), lt("VerifC11_NoEarlyUnlock", "n", "4")},
+			lt("VerifC11_NoEarlyUnlock", "n", "1"), lt("VerifC11_NoEarlyUnlock", "n", "2"), lt("VerifC11_NoEarlyUnlock", "n", "3"), lt("VerifC11_NoEarlyUnlock", "n", "4"),
+			lk("VerifC11_LiquidateStep", "periods", "3"), lk("VerifC11_RedeemStep", "denomPeriods", "2"), lk("VerifC11_RedeemStep", "denomPeriods", "1", "toPeriods", "2")},
 		Bounds: map[string]string{
-			"quick":    "lockup schedules of <= 3 periods (split and liquid-schedule construction), amounts in [0,2^100), subtrahend in [0,2^100), start in [0,2^60], lengths in [0,2^56], liquidation and read times in [0,2^61]",
-			"thorough": "split up to 5 periods, liquid-schedule construction up to 4 periods; same value ranges",
+			"quick":    "lockup schedules of <= 3 periods (split and liquid-schedule construction), amounts in [0,2^100), subtrahend in [0,2^100), start in [0,2^60], lengths in [0,2^56], liquidation and read times in [0,2^61]; keeper level (inductive step from an arbitrary module state satisfying the backing invariant: one existing liquid token with a symbolic schedule, partly held as ERC20 tokens, arbitrary module surplus): one Liquidate from a clawback account with <= 2 lockup periods, one Redeem of a 1-period token to oneself / a plain EVM account / an existing clawback account with its own 1-period schedule; start times in [0,2^40], lengths in [1,2^36], amounts < 2^100, every observation instant",
+			"thorough": "split up to 5 periods, liquid-schedule construction up to 4 periods; Liquidate with 3 lockup periods, Redeem of a 2-period token and into a 2-period account; same value ranges",
 		},
-		Outside:     []string{"keeper-level bookkeeping of Liquidate/Redeem (module escrow, denom table, ERC20 side) - planned keeper harness", "more periods than the bound", "liquidation at or before the schedule start (rejected by Liquidate because nothing is vested then)"},
-		Assumptions: []string{"theory summaries of sdk.Coins / math.Int", "the composition of Liquidate's schedule computation is replayed in the harness with the same calls in the same order (ExtractUpcomingPeriods, SubtractAmountFromPeriods, ReplacePeriodsTail, CurrentPeriodShift)"},
+		Outside:     []string{"sequences of more than one Liquidate/Redeem are covered only through the inductive invariant (escrow = total liquid supply, recorded schedule sums to supply), not enumerated", "the ERC20 side is a 1:1 escrow ledger (the real conversion is C10's subject)", "delegated coins of the recipient (staking getters return zero)", "more periods than the bound", "liquidation at or before the schedule start (rejected by Liquidate because nothing is vested then)"},
+		Assumptions: []string{"theory summaries of sdk.Coins / math.Int", "the composition of Liquidate's schedule computation is replayed in the harness with the same calls in the same order (ExtractUpcomingPeriods, SubtractAmountFromPeriods, ReplacePeriodsTail, CurrentPeriodShift)", "keeper harness: bank / account / ERC20 keepers are ledgers behind the module's own interfaces (the bank ledger enforces LockedCoins on account debits), the vesting keeper is the real one, SDK staking getters GetDelegatorBonded/Unbonding/BondDenom overridden"},
+		Stubs: []string{"c11Bank", "c11AK", "c11ERC20", "zzverif.MemStore"},
 	}
 	ck := func(fn string, kv ...string) Inst { return Inst{Pkg: "x/coinomics/keeper", Fn: fn, Params: pm(kv...)} }
 	m["C13"] = &PropSpec{
@@ -110,16 +116,18 @@ func Specs() map[string]*PropSpec {
 		Stubs:       []string{"c14State (bank ledger)", "zzverif.MemStore", "blob codec"},
 	}
 	c19 := []Inst{{Pkg: "x/coinomics", Fn: "VerifC19_Coinomics", Params: pm()}, {Pkg: "x/feemarket", Fn: "VerifC19_Feemarket", Params: pm()},
-		{Pkg: "x/liquidvesting", Fn: "VerifC19_Liquidvesting", Params: pm("denoms", "2", "periods", "2")}, {Pkg: "x/ucdao/keeper", Fn: "VerifC19_Ucdao", Params: pm("accounts", "2")}}
+		{Pkg: "x/liquidvesting", Fn: "VerifC19_Liquidvesting", Params: pm("denoms", "2", "periods", "2")}, {Pkg: "x/ucdao/keeper", Fn: "VerifC19_Ucdao", Params: pm("accounts", "2")},
+		{Pkg: "x/evm", Fn: "VerifC19_Evm", Params: pm("accounts", "1")}, {Pkg: "x/evm", Fn: "VerifC19_Evm", Params: pm("accounts", "2", "varyParams", "0")}}
 	c19t := []Inst{{Pkg: "x/coinomics", Fn: "VerifC19_Coinomics", Params: pm()}, {Pkg: "x/feemarket", Fn: "VerifC19_Feemarket", Params: pm()},
-		{Pkg: "x/liquidvesting", Fn: "VerifC19_Liquidvesting", Params: pm("denoms", "3", "periods", "3")}, {Pkg: "x/ucdao/keeper", Fn: "VerifC19_Ucdao", Params: pm("accounts", "3")}}
+		{Pkg: "x/liquidvesting", Fn: "VerifC19_Liquidvesting", Params: pm("denoms", "3", "periods", "3")}, {Pkg: "x/ucdao/keeper", Fn: "VerifC19_Ucdao", Params: pm("accounts", "3")},
+		{Pkg: "x/evm", Fn: "VerifC19_Evm", Params: pm("accounts", "2")}}
 	m["C19"] = &PropSpec{
-		ID: "C19", Pkgs: []string{"./x/coinomics", "./x/feemarket", "./x/liquidvesting", "./x/ucdao/keeper"}, Quick: c19, Thorough: c19t,
+		ID: "C19", Pkgs: []string{"./x/coinomics", "./x/feemarket", "./x/liquidvesting", "./x/ucdao/keeper", "./x/evm"}, Quick: c19, Thorough: c19t,
 		Bounds: map[string]string{
-			"quick":    "coinomics, fee market, liquid vesting (<= 2 denoms x 2 periods), UC DAO (2 accounts x 2 denominations): arbitrary module state S (every stored entry independently present/absent, every integer symbolic), Export(Init(Export(S))) compared field by field with Export(S) and through the keeper getters",
-			"thorough": "liquid vesting <= 3 denoms x 3 periods, UC DAO 3 accounts",
+			"quick":    "coinomics, fee market, liquid vesting (<= 2 denoms x 2 periods), UC DAO (2 accounts x 2 denominations): arbitrary module state S (every stored entry independently present/absent, every integer symbolic), Export(Init(Export(S))) compared field by field with Export(S) and through the keeper getters; x/evm: <= 2 EVM accounts (3 code shapes incl. none, 2 storage slots each absent or one of 3 values, a plain account interleaved, 4 parameter switches) - every combination enumerated as paths, compared through GetCode/GetState and the exported document",
+			"thorough": "liquid vesting <= 3 denoms x 3 periods, UC DAO 3 accounts, x/evm 2 accounts with all parameter switches",
 		},
-		Outside:     []string{"x/evm (code, storage, accounts), x/erc20 token pairs, vesting accounts in x/auth, x/epochs (its InitGenesis re-anchors start height/time by design), app/export.go zero-height preparation", "protobuf/JSON encoding of the genesis document (typed blobs)"},
+		Outside:     []string{"x/evm beyond the bounded shapes (large code, many slots; the x/evm harness has concrete inputs after the symbolic choice: exhaustive enumeration of the bounded space), x/erc20 token pairs, vesting accounts in x/auth, x/epochs (its InitGenesis re-anchors start height/time by design), app/export.go zero-height preparation", "protobuf/JSON encoding of the genesis document (typed blobs)"},
 		Assumptions: []string{"codec and gogoproto Marshal/Unmarshal are an inverse pair on typed blobs", "legacy param subspace = one typed blob"},
 		Stubs:       []string{"zzverif.MemStore", "c19AK (account keeper returning module accounts)"},
 	}
@@ -187,16 +195,18 @@ func Specs() map[string]*PropSpec {
 		Stubs:       []string{"sLedger (statedb.Keeper)"},
 	}
 	m["C02"] = &PropSpec{
-		ID: "C02", Pkgs: []string{"./x/evm/statedb"},
-		Quick:    []Inst{sd("VerifC05_StateDB", "ops", "3", "kinds", "tdf"), sd("VerifC05_StateDB", "ops", "4", "kinds", "td", "amts", "1")},
-		Thorough: []Inst{sd("VerifC05_StateDB", "ops", "4", "kinds", "tdf", "amts", "1"), sd("VerifC05_StateDB", "ops", "4", "kinds", "td")},
+		ID: "C02", Pkgs: []string{"./x/evm/statedb", "./precompiles/staking"},
+		Quick: []Inst{sd("VerifC05_StateDB", "ops", "3", "kinds", "tdf"), sd("VerifC05_StateDB", "ops", "4", "kinds", "td", "amts", "1"),
+			{Pkg: "precompiles/staking", Fn: "VerifC02_StakingMirror", Params: pm(), EngineReplay: true}},
+		Thorough: []Inst{sd("VerifC05_StateDB", "ops", "4", "kinds", "tdf", "amts", "1"), sd("VerifC05_StateDB", "ops", "4", "kinds", "td"),
+			{Pkg: "precompiles/staking", Fn: "VerifC02_StakingMirror", Params: pm(), EngineReplay: true}},
 		Bounds: map[string]string{
-			"quick":    "every program of <= 3 operations from {value transfer, SELFDESTRUCT, nested frame} over 3 accounts, and every program of 4 operations from {transfer, SELFDESTRUCT}: after Commit total supply = sum of surviving balances, never above the initial supply, every balance = before + received - paid",
+			"quick":    "every program of <= 3 operations from {value transfer, SELFDESTRUCT, nested frame} over 3 accounts, and every program of 4 operations from {transfer, SELFDESTRUCT}: after Commit total supply = sum of surviving balances, never above the initial supply, every balance = before + received - paid; staking precompile delegate through the real StateDB and the real method body: signer -> precompile and signer -> contract -> precompile, with / without attached value, delegator = signer or calling contract, contract-internal transfers before and after the call, all balances and amounts symbolic (< 2^100), final Commit, supply and every balance compared with reference bookkeeping",
 			"thorough": "4 operations with frames",
 		},
-		Outside:     []string{"precompile calls (staking / distribution / ICS-20 / bank) and their balance mirroring: need the precompile harness; the suspected overwrite of Cosmos-side debits by cached objects is recorded in DESIGN.md as not yet decided", "fees (C07)"},
-		Assumptions: []string{"as C05"},
-		Stubs:       []string{"sLedger"},
+		Outside:     []string{"distribution / ICS-20 / bank precompiles and staking createValidator (same mirroring structure as delegate; suspected overwrites listed in DESIGN.md, not decided here)", "the EVM interpreter itself (operations are issued directly against the StateDB)", "fees (C07)"},
+		Assumptions: []string{"as C05", "precompile harness: SetAccount mints / burns the balance difference exactly like x/evm/keeper SetBalance; the staking module moves the delegated coins to the bonded pool in the same ledger; the account of the executing contract is cached before the precompile runs (the EVM fetched its code), the signer's only when it attached value"},
+		Stubs:       []string{"sLedger", "c02Bank", "c04Srv (staking message server)", "authz keeper overrides"},
 	}
 	m["C01"] = &PropSpec{
 		ID: "C01", Pkgs: []string{"./x/evm/statedb"},
